@@ -13,6 +13,18 @@ package migration
 // what state a reservation is in. Every Evict call is stamped with that model at the instant of the call.
 //
 // See /verif/DESIGN.md section 4 C17 and the property statement in /verif/properties.jsonl.
+//
+// Violations this check reports on the tree it was written against (triaged as defects of the code, both need one
+// failed write; plain reproductions in repro_test.go.txt, candidate fixes validated through the overlay):
+//   C17|rf|ttl-abort-leaves-reservation|job-has-reservationRef=false
+//       createReservation creates the Reservation, the job Update that records spec.reservationOptions.reservationRef
+//       fails, the TTL passes before the retry: abortJobIfTimeout -> deleteReservation returns nil for a nil ref, the
+//       job becomes Failed/Timeout and the Reservation it created is never deleted.
+//   C17|rf|evict-gate|reservation-on-the-pods-node(pod=replaced)
+//       the same-node guard (abortJobIfReserveOnSameNode) runs once, when the ReservationScheduled condition is first
+//       set; if that reconcile then fails at/after the Evict call (evictor refuses, status write fails) and the pod is
+//       replaced by a same-name pod on the reservation's node, the next reconcile evicts that pod: evictPod compares
+//       the pod UID with spec.podRef.uid only when an Eviction condition already exists.
 
 import (
 	"context"
